@@ -90,7 +90,7 @@ func (fieldConstraints) lenCheck(s string, lengths []*meta.Range) error {
 	// every length statement along the typedef chain restricts further
 	for _, length := range lengths {
 		// RFC7950 Sec 9.4.4 length is in characters, not bytes
-		if err := length.CheckValue(val.Int32(utf8.RuneCountInString(s))); err != nil {
+		if err := length.CheckValue(val.UInt32(utf8.RuneCountInString(s))); err != nil {
 			return fmt.Errorf("string length outside allowed ranges. %s", s)
 		}
 	}
